@@ -13,3 +13,5 @@ pub use targets::{
     TwoAdicFriProofTargets, Witness,
 };
 pub use verifier::verify_fri_circuit;
+#[cfg(p3_recursion_verif)]
+pub use verifier::verif_hooks as verifier_verif_hooks;
